@@ -53,8 +53,9 @@ def _case(draw):
                      if draw(st.booleans())]
     if draw(st.booleans()):
         spec['analysis'] = [['GATE1', '0.5']]
+    spec['path_form'] = draw(st.sampled_from([None, None, None, 'dslash', 'dot', 'updown']))   # how the file was named
     return dict(arm='history', spec=spec, ops=draw(st.lists(_op(), max_size=3)), dup=draw(st.sampled_from(DUPS)),
-                mutate=draw(st.sampled_from(['dup', 'orig'])))
+                mutate=draw(st.sampled_from(['dup', 'orig'])), early=draw(st.sampled_from([False, False, True])))
 
 
 def strategy(tier):
@@ -160,6 +161,21 @@ def check(case, obs):
     if not obs.claim('duplicates', not raised(dup), lambda: '%s raised %r' % (how, dup)):
         return
     obs.claim('type', type(dup) is type(d), lambda: '%s returned %r' % (how, type(dup)))
+    if case.get('early'):
+        # the original is changed right after the duplicate was made, before anything was read from the duplicate
+        obs.label('changed_before_first_read')
+        d.text['VERIF'] = 'changed'
+        for k in list(d.text)[:1]:
+            d.text[k] = d.text[k] + '!'
+        d.analysis['VERIF'] = '1'
+        rl = d.range()
+        if rl and rl[0] is not None:
+            rl[0][0] = -12345.0
+        fd = call(fingerprint, dup)
+        obs.claim('independent', not raised(fd) and not fp_diff(before, fd),
+                  lambda: '%s after %r: a change made to the original right after duplicating shows in the duplicate: %r' % (
+                      how, kinds, fd if raised(fd) else fp_diff(before, fd)))
+        return
     fd = call(fingerprint, dup)
     if not obs.claim('equal', not raised(fd) and not fp_diff(before, fd),
                      lambda: '%s after %r: duplicate differs in %r' % (how, kinds, fd if raised(fd) else fp_diff(before, fd))):
